@@ -157,7 +157,7 @@ def lean_deps(mod, seen=None):
 
 def prove(ctx, spec):
     """Build the property module, audit axioms of every `theorem Cxx_*` in it. Returns (obligations, discharged, names)."""
-    mods = spec["lean_props"] if isinstance(spec["lean_props"], list) else [spec["lean_props"]]
+    mods = list(spec["lean_props"]) if isinstance(spec["lean_props"], list) else [spec["lean_props"]]
     mod = mods[0]
     targets = mods + spec.get("lean_extra", [])
     for part in parts_of(spec):
@@ -165,6 +165,18 @@ def prove(ctx, spec):
             targets.append(part["driver"])
     with LakeLock():
         rc, out = sh(["timeout", "-k", "10", "1500", "lake", "build"] + targets, cwd=LEAN, timeout=3600)
+    # the source-identity obligation is built on its own: when it breaks (regen_digest has named the declarations) the
+    # property theorems are still audited
+    dm, digest_broken = digest_module(ctx.pid), False
+    if dm and dm not in mods:
+        with LakeLock():
+            rcd, outd = sh(["timeout", "-k", "10", "600", "lake", "build", dm], cwd=LEAN, timeout=1200)
+        if rcd == 0:
+            mods.append(dm)
+        else:
+            digest_broken = True
+            if not any(isinstance(f_, dict) and f_.get("kind") == "source-digest" for f_ in ctx.obligation_failures):
+                ctx.obligation_failures.append({"kind": "source-digest", "detail": tail(outd, 20)})
     if rc != 0:
         ctx.obligation_failures.append({"kind": "lake-build", "detail": tail(out, 60)})
         ctx.log("lake build FAILED\n" + tail(out, 40))
@@ -185,6 +197,8 @@ def prove(ctx, spec):
     # theorem names
     propsrc = "\n".join(strip_comments(open(files[m_]).read()) for m_ in mods if m_ in files)
     names = re.findall(r"^\s*theorem\s+(" + spec.get("theorem_prefix", ctx.pid) + r"_\w+)", propsrc, re.M)
+    if digest_broken:
+        names.append(base_pid(ctx.pid) + "_source_digest")   # an obligation of this run, not discharged
     expected = spec.get("theorems")
     if expected:
         for t in expected:
@@ -200,7 +214,8 @@ def prove(ctx, spec):
             if n_:
                 f.write(f"open {n_}\n")
         for t in names:
-            f.write(f"#print axioms {t}\n")
+            if not (digest_broken and t.endswith("_source_digest")):
+                f.write(f"#print axioms {t}\n")
     discharged = 0
     axioms_used = {}
     if rc == 0 and names:
@@ -210,6 +225,8 @@ def prove(ctx, spec):
             ctx.obligation_failures.append({"kind": "audit", "detail": tail(out2, 40)})
         text = out2.replace("\n  ", " ").replace("\n ", " ")
         for t in names:
+            if digest_broken and t.endswith("_source_digest"):
+                continue
             m = re.search(r"'(?:[\w.]*\.)?" + re.escape(t) + r"' (does not depend on any axioms|depends on axioms: \[([^\]]*)\])", text)
             if not m:
                 ctx.obligation_failures.append({"kind": "audit-missing", "detail": t})
@@ -280,6 +297,63 @@ def regen_skeletons(ctx, requests, extra_methods=()):
     if rc != 0 or not os.path.exists(tmp):
         return [{"kind": "skeleton-extractor", "detail": tail(log, 20)}]
     write_gen(ctx, out, open(tmp).read())
+    return []
+
+
+def base_pid(pid):
+    """C01A / C12B … are development aliases of C01 / C12."""
+    return re.sub(r"[A-Z]$", "", pid) if len(pid) > 3 else pid
+
+
+def digest_files(pid):
+    """The files whose declarations the source-identity obligation of a property pins: the anchored files of
+    properties.jsonl plus SPEC['digest_extra'] (helper files the property's code relies on)."""
+    b = base_pid(pid)
+    files = []
+    for l in open(os.path.join(VERIF, "properties.jsonl")):
+        p_ = json.loads(l)
+        if p_["id"] == b:
+            files = list(p_["anchors"]["files"])
+    try:
+        files += [f for f in load_spec(b).get("digest_extra", []) if f not in files]
+    except Exception:
+        pass
+    return files
+
+
+def digest_module(pid):
+    """Lean module with `theorem Cxx_source_digest` if the property has one pinned (see repin_digest.py)."""
+    b = base_pid(pid)
+    return f"Hive.Props.{b}Digest" if os.path.exists(os.path.join(LEAN, "Hive", "Props", f"{b}Digest.lean")) else None
+
+
+DIGEST_ROW = re.compile(r'\("([^"]*)", "([^"]*)", "([^"]*)"\)')
+
+
+def regen_digest(ctx):
+    """Source-identity obligation: regenerates lean/Hive/Gen/<Cxx>_Digest.lean (a digest of the normalised text of every
+    top-level declaration of the anchored files, harness/tools/srcdigest) from the tree under check.  The committed
+    Hive/Props/<Cxx>Digest.lean states the digests the models were validated against (`theorem Cxx_source_digest … := rfl`);
+    an edited, added or removed declaration breaks that obligation, and is named here."""
+    b = base_pid(ctx.pid)
+    props = os.path.join(LEAN, "Hive", "Props", f"{b}Digest.lean")
+    if not os.path.exists(props):
+        return []
+    out = os.path.join(LEAN, "Hive", "Gen", f"{b}_Digest.lean")
+    tmp = os.path.join(ctx.scratch, f"{b}_Digest.lean")
+    rc, log = sh(["go", "run", "./tools/srcdigest", tmp, f"Hive.Gen.{b}Digest", ctx.repo] + digest_files(b), cwd=HARNESS, timeout=600)
+    if rc != 0 or not os.path.exists(tmp):
+        return [{"kind": "skeleton-extractor", "detail": "srcdigest: " + tail(log, 10)}]
+    new = open(tmp).read()
+    write_gen(ctx, out, new)
+    want = [(a, d_) for a, d_, _ in DIGEST_ROW.findall(open(props).read())], dict(((a, d_), h) for a, d_, h in DIGEST_ROW.findall(open(props).read()))
+    got = dict(((a, d_), h) for a, d_, h in DIGEST_ROW.findall(new))
+    changed = [f"{a}: {d_}" for (a, d_), h in got.items() if (a, d_) in want[1] and want[1][(a, d_)] != h]
+    added = [f"{a}: {d_}" for k_ in got for a, d_ in [k_] if k_ not in want[1]]
+    removed = [f"{a}: {d_}" for k_ in want[1] for a, d_ in [k_] if k_ not in got]
+    if changed or added or removed:
+        return [{"kind": "source-digest", "detail": "anchored declarations differ from the text the model was validated against - "
+                 f"changed: {changed or '-'}; added: {added or '-'}; removed: {removed or '-'} (obligation {b}_source_digest)"}]
     return []
 
 
@@ -646,6 +720,8 @@ def main(argv):
         if spec.get("regen"):
             for f in spec["regen"](ctx) or []:
                 ctx.obligation_failures.append(f)
+        for f in regen_digest(ctx):
+            ctx.obligation_failures.append(f)
         proof = prove(ctx, spec)
         replay_ops = None
         if a.replay:
